@@ -1,4 +1,5 @@
 CONSTANT AsCodedReinit = FALSE
+CONSTANT MolSlots = TRUE
 CONSTANT MaxCells = 99
 CONSTANT Depth = 7
 CONSTANT Acts = {"Combine", "MkPart", "MkMol", "PartFilter"}
